@@ -290,7 +290,7 @@ def run(ctx):
         correspondence_disagreements=len(disagreements), exhaustive=False)
     if failing:
         f = failing[0]
-        lib.violation(ctx, "decode" if f["cmd"].startswith("parse ") else "fold", dict(property="C08", input=f, all_failing=failing[:20],
+        lib.violation(ctx, "decode" if f["cmd"].startswith("parse ") else ("reads" if f["cmd"].startswith("reads ") else "fold"), dict(property="C08", input=f, all_failing=failing[:20],
                                        how="echo '%s' > cmds; harness/target/%s/rva_harness cmds" % (f["cmd"], f["profile"])), True)
         return
     if disagreements or not proof_ok:
